@@ -53,7 +53,7 @@ func kaID(k int, plan []int, variant string) string {
 }
 
 func newQuietServer() *mqtt.Server {
-	srv := mqtt.New(&mqtt.Options{InlineClient: false, Logger: slog.New(slog.NewTextHandler(io.Discard, nil))})
+	srv := mqtt.New(&mqtt.Options{InlineClient: true, Logger: slog.New(slog.NewTextHandler(io.Discard, nil))})
 	if err := srv.AddHook(new(auth.AllowHook), nil); err != nil {
 		hx.Die("add hook: %v", err)
 	}
@@ -79,6 +79,12 @@ func keepaliveMain(a []string) {
 		rows, q := rowsK, 250*k
 		if k == 0 {
 			rows, q = rows0, 250
+		}
+		if variant == "v4long0" { // keepalive 0 observed for tens of seconds (packets 5-7 s apart): it never times out
+			if k != 0 {
+				continue
+			}
+			q = 1000
 		}
 		for _, r := range rows {
 			run := &kaRun{ID: kaID(k, r.Plan, variant), K: k, Q: q, Plan: r.Plan, Variant: variant, Nominal: r}
@@ -113,6 +119,8 @@ func kaOne(srv *mqtt.Server, run *kaRun, n int) {
 	if run.Variant == "v5ping" {
 		version = 5
 	}
+	stopTraffic := make(chan struct{})
+	defer close(stopTraffic)
 	cli, brk := net.Pipe()
 	go func() { _ = srv.EstablishConnection("t", brk) }()
 	var closedAt atomic.Int64 // unix nanos at which the harness saw the connection closed (0 = open)
@@ -155,6 +163,32 @@ func kaOne(srv *mqtt.Server, run *kaRun, n int) {
 		return t1, time.Now(), err == nil
 	}
 	b0, a0, ok := write(refcodec.Encode(con))
+	if run.Variant == "v4sub" && ok {
+		// variant "the broker keeps sending to a client that has gone silent": the client subscribes right after its
+		// CONNECT (counted as the same moment) and messages for it are published at short intervals for the whole
+		// observation; packets the broker SENDS must not count as packets that ARRIVED
+		sp := refcodec.New(refcodec.Subscribe, version)
+		sp.PacketID = 1
+		sp.Filters = []refcodec.Filter{{Filter: "ka/" + con.ClientID, Options: 0}}
+		_, a0, ok = write(refcodec.Encode(sp))
+		topic := "ka/" + con.ClientID
+		gap := time.Duration(run.Q) * time.Millisecond / 2
+		if gap <= 0 {
+			gap = 100 * time.Millisecond
+		}
+		go func() {
+			t := time.NewTicker(gap)
+			defer t.Stop()
+			for {
+				select {
+				case <-stopTraffic:
+					return
+				case <-t.C:
+					_ = srv.Publish(topic, []byte("x"), false, 0)
+				}
+			}
+		}()
+	}
 	zero = a0 // schedule times are relative to the completed CONNECT
 	run.Sends = append(run.Sends, [3]any{ms(b0, false), 0, ok})
 	q := time.Duration(run.Q) * time.Millisecond
